@@ -568,7 +568,8 @@ def plan(run):
     if not quick:
         inner = full("body", "inner")
         run.layer("all-code-points-body-inner", fn, inner, chunk=4, total=len(inner))
-        for pos in POSITIONS[1:]:
+        # cheapest positions first, so that a budget cut leaves the most layers complete
+        for pos in sorted(POSITIONS[1:], key=lambda p: (p == "subline_by", p == "page_by")):
             cases = full(pos, "whole")
             ch = 4 if PER_DOC[pos] >= 2000 else (20 if pos == "page_by" else 100)
             run.layer(f"all-code-points-{pos}-whole", fn, cases, chunk=ch, total=len(cases))
